@@ -495,9 +495,16 @@ impl World {
                 // Optionally cut into several segments with increasing arrival times.
                 let mut pieces: Vec<Vec<u8>> = Vec::new();
                 if data.len() > 1 && self.tape.chance(tape::NET, self.net.tcp_segment_ppm) {
-                    let n = 2 + self.tape.draw(tape::NET, 4) as usize;
+                    // mostly a few pieces; one time in four a trickle: up to 32 single bytes, then the rest
+                    let trickle = self.tape.draw(tape::NET, 4) == 0;
+                    let n = if trickle { 2 + self.tape.draw(tape::NET, 32) as usize } else { 2 + self.tape.draw(tape::NET, 4) as usize };
                     let mut rest = &data[..];
                     for i in 0 .. n {
+                        if trickle && i < n - 1 && !rest.is_empty() {
+                            pieces.push(rest[.. 1].to_vec());
+                            rest = &rest[1 ..];
+                            continue;
+                        }
                         if rest.is_empty() {
                             break;
                         }
